@@ -126,7 +126,7 @@ struct dropper final : sink
 	void incoming_packet(aux::packet p) override
 	{
 		int d = 0;
-		if (p.ok_to_drop() && p.type == aux::packet::type_t::payload && budget > 0)
+		if (p.ok_to_drop() && p.type == aux::packet::type_t::payload && budget > 0 && (only_overhead == 0 || p.overhead == only_overhead))
 		{
 			--budget;
 			d = vp_choose(outcomes);
@@ -163,6 +163,7 @@ struct dropper final : sink
 	std::string label() const override { return std::string(); }
 	int budget, outcomes;
 	int dropped = 0, reordered = 0;
+	int only_overhead = 0; // when set: only packets with this overhead are candidates (40: TCP segments, 28: UDP datagrams)
 	int pattern = 0;      // the decisions taken so far, as base-4 digits (1 pass, 2 drop, 3 hold)
 	bool holding = false;
 	aux::packet held;
